@@ -7,6 +7,23 @@ COMMON_TB = [
 ]
 
 PROPS = {
+    "C15": {
+        "lean_targets": ["BA.Props.C15"],
+        "harness": "c15",
+        "translators": ["extract_constants.py"],
+        "trusted_base": COMMON_TB + [
+            "the alpha-beta filter estimates enter the model as opaque numbers (extrapolated cumulative reward/power ratio); smooth::extrapolated_cum_sum_of_ratio itself is exercised only by the correspondence runs",
+            "the vesting table is abstract in the model (its total = locked_funds, the part with epoch < now is an input `vested` with 0 <= vested <= locked_funds); the harness reads it from the real table before each message",
+            "answers of other actors (UpdatePledgeTotal accepted?, reward transfer delivered?) and the non-funds preconditions of each method (caller, deadline windows, proof validity) are environment inputs of the model; the harness derives them from the invocation trace / how it built the message",
+            "faulty power of a deadline is an input of the model (no partition/deadline model here): the harness reads Deadline.faulty_power from the real state before the cron callback",
+            "translator reads from the source text whether report_consensus_fault adds the unsent reward back to the burn (Gen.cfBurnsUnsentReward)",
+        ],
+        "assumptions": [
+            "fee_debt, pre_commit_deposits, locked_funds, initial_pledge >= 0 and balance >= their sum (check_balance_invariants) in the starting state; preserved by every modelled step (theorem history_accounting)",
+            "known finding F4: in the unrepaired code the consensus-fault step with a failing reward transfer loses the reward amount from the accounting (negation witness proved; penalty_accounting is therefore _partial)",
+            "reporter and miner owner are distinct accounts in the scenarios (a reporter may be the owner by design; the reward is then a legitimate payment to that account)",
+        ],
+    },
     "C16": {
         "lean_targets": ["BA.Props.C16"],
         "harness": "c16",
